@@ -183,4 +183,8 @@ def obligations(tier):
     obs.append(Ob('bit_file_walk', 'ch', '1..3 log passes, 1..2 channels, 0..2 blocks (0 = header only), TIF chain with symbolic block sizes; file ending with both trailing type-1 markers, without the end-of-file marker, or straight after the last data block; the type test and two reads on one file object',
                   ['BIT.ReadBIT.yield_tif_blocks', 'ReadBIT.create_bit_frame_array_from_file', 'BITFrameArray'], harness='C13_bit', func='check_file',
                   timeout=150 if tier == 'quick' else 900, parts=3, stubs=['SymFile', 'PyStruct for TIF_WORD_STRUCT', 'list-backed numpy stand-in']))
+    obs.append(Ob('bit_many_channels', 'ch', 'whole files of 1..2 log passes with 1 / 2 / 10 / 17 / 19 / 20 channels (20 = every slot of the header name table), 1..2 data blocks of 1..3 frames, up or down; '
+                  'real numpy storage: names in header order, frame count, channel-major de-interleave, X axis',
+                  ['BIT.ReadBIT.BITFrameArray.__init__ (channel count and name table)', 'BITFrameArray.add_block/complete', 'ReadBIT.create_bit_frame_array_from_file', 'ReadBIT.is_bit_file'],
+                  harness='C13_wide', func='bit_wide', timeout=150 if tier == 'quick' else 600))
     return obs
